@@ -31,7 +31,7 @@ assert list(layer.handle_event(events.Start())) == []
 resp = tdnsresp()
 resp.id = 4242  # nobody asked for this
 cmds = []
-gen = layer.handle_event(events.DataReceived(ctx.server, dns.pack_message(resp, "udp")))
+gen = layer.handle_event(events.DataReceived(ctx.server, dns_layer.pack_message(resp, "udp")))
 for cmd in gen:
     cmds.append(cmd)
     if isinstance(cmd, commands.StartHook):
@@ -40,7 +40,7 @@ for cmd in gen:
 hooks = [c for c in cmds if isinstance(c, commands.StartHook)]
 if hooks:
     flow = hooks[0].flow
-    print(f"FAIL: {type(hooks[0]).__name__} fired for unsolicited server message; flow.request={flow.request!r}")
+    print(f"FAIL: {type(hooks[0]).__name__} fired for unsolicited server message; flow has request: {hasattr(flow, 'request')}")
     sys.exit(1)
 if 4242 in layer.flows:
     print("FAIL: a flow was created for an unsolicited server message")
